@@ -87,7 +87,7 @@ def parse_batch(texts):
     hangs = 0
     for i, t in texts:
         try:
-            signal.setitimer(signal.ITIMER_REAL, 10.0 if hangs < 3 else 1.0)
+            signal.setitimer(signal.ITIMER_REAL, 10.0 if hangs < 2 else 0.25)
             it = Item.from_sml(t)
             signal.setitimer(signal.ITIMER_REAL, 0)
         except Hang:
